@@ -387,6 +387,13 @@ def solve_check(rep, svh, rng, text, spec_flows, n, nm, choi, ir):
         queries.append((f[0], f[1], f[2], []))
     for _ in range(2):
         queries.append(random_flow(rng, n, nm)[1][:3] + ([],))
+    if rng.random() < 0.5:
+        # (probably) unsolvable flows with Y terms placed before the solvable ones: eliminating them multiplies rows by i
+        for _ in range(rng.choice([1, 2])):
+            pin = ''.join(rng.choice('Y_YX') for _ in range(n))
+            pout = ''.join(rng.choice('Y_YZ') for _ in range(n))
+            queries.insert(rng.randrange(len(queries) + 1), (rng.randrange(2), pin, pout, []))
+    queries = [q for q in queries if q[1].strip('_') or q[2].strip('_')]
     if not queries:
         return
     payload = text + '\n' + '\n'.join('@F ' + flow_text(q, n) for q in queries)
@@ -397,6 +404,18 @@ def solve_check(rep, svh, rng, text, spec_flows, n, nm, choi, ir):
         return
     if so and so[-1].startswith('ERR'):
         return
+    # the answer for a flow must not depend on the other flows of the call
+    if len(queries) > 1:
+        for q, ans in zip(queries, so):
+            try:
+                one = svh.request('solveflows', [], text + '\n@F ' + flow_text(q, n))
+            except core.Crash as e:
+                rep.violation('solve_for_flow_measurements', 'crash', text + '\n@F ' + flow_text(q, n), str(e) + e.stderr[-800:])
+                continue
+            if one and not one[-1].startswith('ERR') and (one[0] == 'S none') != (ans == 'S none'):
+                rep.violation('solve_for_flow_measurements', 'wrong-result',
+                              {'circuit': text, 'flow': flow_text(q, n), 'batch': [flow_text(x, n) for x in queries], 'answers': list(so)},
+                              'the same flow is reported solvable when asked alone and unsolvable inside this batch (or the reverse)', one[0], ans)
     # check answers through the specification: returned sets must make the flow true (unsigned, the solver ignores signs);
     # "none" must mean that no measurement set works
     probes = ['PROBE ' + ' '.join(flow_probe(pad(q[1], n), pad(q[2], n), n)) for q in queries]
@@ -410,7 +429,8 @@ def solve_check(rep, svh, rng, text, spec_flows, n, nm, choi, ir):
             if form is not None:
                 masks = [m for c, m in sp['rec']]
                 if rank(masks + [form[1]]) == rank(masks):
-                    rep.violation('solve_for_flow_measurements', 'wrong-result', {'circuit': text, 'flow': flow_text(q, n)},
+                    rep.violation('solve_for_flow_measurements', 'wrong-result',
+                                  {'circuit': text, 'flow': flow_text(q, n), 'batch': [flow_text(x, n) for x in queries], 'answers': list(so)},
                                   'reported no solution although a measurement set makes the flow true')
         else:
             ms = [int(x) for x in ans.split(' ')[1:]]
